@@ -233,6 +233,11 @@ fn gen_msg(g: &mut G, k: &Knobs, actor: usize, n_actors: usize, depth: u32, join
                             subs.push(Op::Sleep(g.pick(&k.sleeps)));
                         }
                     }
+                    // in fault-injecting profiles a branch may panic while its siblings are in flight: they are then
+                    // dropped during unwinding (destructors that behave differently while panicking)
+                    if k.h_panic > 0 && g.chance(120) {
+                        subs.push(Op::Panic);
+                    }
                     steps.push(if g.chance(350) { Op::Race(subs) } else { Op::Join(subs) });
                 }
                 _ => steps.push(Op::Yield(1)),
